@@ -673,6 +673,9 @@ func castArr(opts *options, v value) ([]value, Error) {
 			}
 		}
 
+		// the chain has been followed
+		opts.activeFields = parentFields
+
 		if sub, ok := unrefed.(cfgSub); ok {
 			return sub.c.fields.array(), nil
 		}
